@@ -5,7 +5,8 @@
 (*                                  Implements, field types, Extend, method calls       *)
 (*   tequila.MergeHeaderFile        node loop, then relation loop (Go map order = any   *)
 (*                                  order) with MergeHeaderFunc / MergePackageFunc      *)
-(*   tequila.BuildMapTree / PathTrie.Put   one Put per included node (any order)        *)
+(*   tequila.BuildMapTree / PathTrie.Put   one Put per included node (cmd/arch.go's     *)
+(*                                  nodeFilter: contains one of the filter strings)     *)
 (*   tequila.MapToGraph / buildGraphNode   leaves of the trie become drawn nodes,       *)
 (*                                  registered under the dotted join of the trie Values *)
 (*   edge loop of MapToGraph        an edge iff both ends are registered                *)
@@ -23,7 +24,9 @@ CONSTANTS Universe,      \* Seq([pkg : Seq(String), name : String]): candidate t
           Externals,     \* extra relation targets [pkg : String, node : String] (library / absent types)
           Modes,         \* subset of {"none","H","P","HP"}
           Filters,       \* set of include filters (Seq(String))
-          Fixed          \* TRUE: MergeHeaderFile as repaired (C13-1, C13-2); FALSE: as found
+          FixKey,        \* C13-1: merged relations keyed from->to (FALSE: from ++ to, as found)
+          FixLeaving,    \* C13-2: MergeHeaderFile skips relations with an end outside the graph (FALSE: merges them)
+          FixRegister    \* C13-3: drawn nodes registered under their node key (FALSE: dotted join of the trie Values)
 
 VARIABLES model,         \* the abstract input, filled in as the code reads it
           phase,         \* "analysis" | "analysed" | "merge" | "merged" | "tree" | "graph" | "done"
@@ -117,9 +120,6 @@ Value(part) == IF Len(part) > 0 /\ SubSeq(part, 1, 1) = "/" THEN SubSeq(part, 2,
 Values(path) == [i \in DOMAIN path |-> Value(path[i])]
 PathPrefixes(path) == {SubSeq(path, 1, n) : n \in 1..Len(path)}
 
-\* cmd/arch.go: strings.Split(FilterString, ","), strings.Contains
-NodeFilter(key) == LET f == model.filter IN f = <<>> \/ \E i \in DOMAIN f : Contains(key, f[i])
-
 -----------------------------------------------------------------------------
 Init ==
   /\ \E s \in Subsets : model = [types |-> InOrder(s), filter |-> <<>>, mergeH |-> FALSE, mergeP |-> FALSE, via |-> "api"]
@@ -196,9 +196,9 @@ MergeRelation ==    \* MergeHeaderFile, one iteration of the relation loop (map 
        LET r == relationList[k]
            mf == MergeFn(mergeQ[1], r[1])
            mt == MergeFn(mergeQ[1], r[2])
-           key == IF Fixed THEN mf \o "->" \o mt ELSE mf \o mt
+           key == IF FixKey THEN mf \o "->" \o mt ELSE mf \o mt
        IN  /\ pending' = pending \ {k}
-           /\ result' = IF (Fixed /\ (r[1] \notin nodeList \/ r[2] \notin nodeList)) \/ mf = mt
+           /\ result' = IF (FixLeaving /\ (r[1] \notin nodeList \/ r[2] \notin nodeList)) \/ mf = mt
                         THEN result
                         ELSE [result EXCEPT !.rels = Put(@, key, Rel(mf, mt))]
   /\ UNCHANGED <<model, phase, ci, nodeList, relationList, mergeQ, inMerge, trie, registered, obs>>
@@ -215,25 +215,25 @@ MergesDone ==
   /\ obs' = [obs EXCEPT !.final = Project2(nodeList, relationList)]
   /\ UNCHANGED <<model, ci, nodeList, relationList, mergeQ, inMerge, pending, result, trie, registered>>
 
-ReadFilter ==       \* ToMapDot(nodeFilter): BuildMapTree starts
+BuildMapTree ==     \* ToMapDot(nodeFilter): one PathTrie.Put per included node. Put only adds the prefixes of the
+                    \* key's path to the trie, so the order of the map loop cannot matter: the loop is one step.
   /\ phase = "merged"
-  /\ \E f \in Filters : model' = [model EXCEPT !.filter = f]
-  /\ phase' = "tree" /\ pending' = nodeList /\ trie' = {}
-  /\ UNCHANGED <<ci, nodeList, relationList, mergeQ, inMerge, result, registered, obs>>
-
-TriePut ==          \* BuildMapTree: one node of the map loop
-  /\ phase = "tree"
-  /\ \E n \in pending :
-       /\ pending' = pending \ {n}
-       /\ trie' = IF NodeFilter(n) THEN trie \cup PathPrefixes(Parts(n)) ELSE trie
-  /\ UNCHANGED <<model, phase, ci, nodeList, relationList, mergeQ, inMerge, result, registered, obs>>
+  /\ \E f \in Filters :
+       /\ model' = [model EXCEPT !.filter = f]
+       /\ trie' = UNION {PathPrefixes(Parts(n)) :
+                           n \in {k \in nodeList : f = <<>> \/ \E i \in DOMAIN f : Contains(k, f[i])}}
+  /\ phase' = "tree"
+  /\ UNCHANGED <<ci, nodeList, relationList, mergeQ, inMerge, pending, result, registered, obs>>
 
 Leaves == {p \in trie : ~\E q \in trie : Len(q) = Len(p) + 1 /\ SubSeq(q, 1, Len(p)) = p}
 IdOf(p) == "node:" \o Join(p, "")
-DottedName(p) == Join(Values(p), ".")
+\* the name a leaf is registered under in MapToGraph's `nodes` map: (repaired) its trie path with "/" read
+\* back as ".", i.e. the node key; (as found) the dotted join of the Values, which loses a leading "."
+DottedName(p) == IF FixRegister /\ Len(p[1]) > 0 /\ SubSeq(p[1], 1, 1) = "/"
+                 THEN "." \o Join(Values(p), ".") ELSE Join(Values(p), ".")
 
 BuildGraphNodes ==  \* MapToGraph: buildGraphNode over the whole trie; only leaves are drawn and registered
-  /\ phase = "tree" /\ pending = {}
+  /\ phase = "tree"
   /\ registered' = [s \in {DottedName(p) : p \in Leaves} |-> IdOf(CHOOSE p \in Leaves : DottedName(p) = s)]
   /\ obs' = [obs EXCEPT !.dot.nodes =
                SetToSeq({[id |-> IdOf(p), label |-> Value(p[Len(p)]), path |-> Values(SubSeq(p, 1, Len(p) - 1))] : p \in Leaves})]
@@ -253,13 +253,14 @@ Finished == phase = "done"
 Done == Finished /\ UNCHANGED vars
 
 Next == SkipMain \/ AnalyzeClass \/ AnalysisReturns \/ ReadSwitches \/ MergeNodes \/ MergeRelation \/ MergeReturns
-        \/ MergesDone \/ ReadFilter \/ TriePut \/ BuildGraphNodes \/ DrawEdges \/ Done
+        \/ MergesDone \/ BuildMapTree \/ BuildGraphNodes \/ DrawEdges \/ Done
 
 Spec == Init /\ [][Next]_vars /\ WF_vars(Next)
 
 -----------------------------------------------------------------------------
 (* Properties: the Machine's outputs satisfy the Reference. Each is evaluated on the step  *)
-(* that finishes the unit it speaks about. Items carrying a known-finding tag are excused. *)
+(* that finishes the unit it speaks about. Items carrying a known-finding tag would be    *)
+(* excused (there is no such tag at present).                                              *)
 
 Rec == [case |-> "machine", input |-> model, observed |-> obs]
 Untagged(items) == {it \in items : it.tags = {}}
@@ -275,7 +276,8 @@ C13_QuotientExact ==
      GraphDiff("merged-node", "merged-edge", QNodes(model), QEdges(model), obs.final) = {}
 
 C13_DotEdgesBetweenDisplayed ==
-  Finished => Untagged(OfKinds(DotDiff(model, obs.dot), {"dot-edge-to-undisplayed", "dot-edge-not-in-graph", "dot-node-id-reused"})) = {}
+  Finished => Untagged(OfKinds(DotDiff(model, obs.dot), {"dot-edge-to-undisplayed", "dot-edge-not-in-graph", "dot-edge-missing",
+                                                        "dot-node-id-reused"})) = {}
 
 C13_EachTypeOnce ==
   Finished => OfKinds(DotDiff(model, obs.dot), {"dot-type-missing", "dot-type-repeated", "dot-node-not-an-included-type",
@@ -285,7 +287,7 @@ C13_Reference == Finished => Untagged(Diff(Rec)) = {}
 
 \* mid-way: the relation loop of a merge never records a self-loop, and (repaired) only merged nodes as ends
 C13_MergeNoSelfLoop == \A k \in DOMAIN result.rels : result.rels[k][1] # result.rels[k][2]
-C13_MergeBetweenNodes == Fixed => \A k \in DOMAIN result.rels : result.rels[k][1] \in result.nodes /\ result.rels[k][2] \in result.nodes
+C13_MergeBetweenNodes == FixLeaving => \A k \in DOMAIN result.rels : result.rels[k][1] \in result.nodes /\ result.rels[k][2] \in result.nodes
 
 C13_Terminates == <>Finished
 
